@@ -179,5 +179,64 @@ pub closed spec fn marks_superset(a: DailyMutations, b: DailyMutations) -> bool 
             // [local_write_keeps_marks]
             marks_superset(*old(daily_log), *final(daily_log)),
 //@ end
+// ================================================================= tombstones received from a peer (delete_all)
+pub mod rusqlite { pub struct Error { x: u8 } }
+pub struct Statement { x: u8 }
+impl Statement {
+    /// any statement may fail
+    #[verifier::external_body]
+    pub fn execute<P>(&mut self, p: P) -> (r: std::result::Result<usize, rusqlite::Error>) { unimplemented!() }
+}
+pub struct Connection { x: u8 }
+impl Connection {
+    #[verifier::external_body]
+    pub fn prepare_cached(&self, q: &str) -> (r: std::result::Result<Statement, rusqlite::Error>) { unimplemented!() }
+}
+impl NodeDeletionEntry {
+    /// stores the tombstone (Writeable::write: SQL); the row is not altered
+    #[verifier::external_body]
+    pub fn write(&mut self, conn: &Connection) -> (r: std::result::Result<(), rusqlite::Error>) ensures *final(self) == *old(self) { unimplemented!() }
+}
+impl EdgeDeletionEntry {
+    #[verifier::external_body]
+    pub fn write(&mut self, conn: &Connection) -> (r: std::result::Result<(), rusqlite::Error>) ensures *final(self) == *old(self) { unimplemented!() }
+}
+
+//@ extract src/database/node.rs :: impl NodeDeletionEntry / fn delete_all
+//@ result r
+//@ attr #[verifier::loop_isolation(false)]
+//@ rewrite E17 "(?<=for node in )nodes(?= \{)" => "nodes.iter_mut()" x1
+//@ loop "for node in" iter it
+            invariant
+                marks_superset(*old(daily_log), *daily_log),
+                it.seq().len() == old(nodes)@.len(), forall|i: int| #![trigger it.seq()[i]] #![trigger old(nodes)@[i]] 0 <= i < it.seq().len() ==> *it.seq()[i] == old(nodes)@[i],
+                forall|i: int| 0 <= i < it.index@ ==> marked(*daily_log, (#[trigger] old(nodes)@[i]).room_id, old(nodes)@[i].entity@, spec_day(old(nodes)@[i].deletion_date))
+                    && marked(*daily_log, old(nodes)@[i].room_id, old(nodes)@[i].entity@, spec_day(old(nodes)@[i].mdate)),
+//@ spec
+        ensures
+            // [received_node_tombstones_mark_both_days] every row tombstone applied from a peer marks, in the same batch, the day it enters (deletion date) and the day the deleted row leaves (its modification date)
+            r is Ok ==> forall|i: int| 0 <= i < old(nodes)@.len() ==> marked(*final(daily_log), (#[trigger] old(nodes)@[i]).room_id, old(nodes)@[i].entity@, spec_day(old(nodes)@[i].deletion_date))
+                    && marked(*final(daily_log), old(nodes)@[i].room_id, old(nodes)@[i].entity@, spec_day(old(nodes)@[i].mdate)),
+            // [received_node_tombstones_keep_marks]
+            marks_superset(*old(daily_log), *final(daily_log)),
+//@ end
+
+//@ extract src/database/edge.rs :: impl EdgeDeletionEntry / fn delete_all
+//@ result r
+//@ attr #[verifier::loop_isolation(false)]
+//@ rewrite E17 "(?<=for e in )edges(?= \{)" => "edges.iter_mut()" x1
+//@ loop "for e in" iter it
+            invariant
+                marks_superset(*old(daily_log), *daily_log),
+                it.seq().len() == old(edges)@.len(), forall|i: int| #![trigger it.seq()[i]] #![trigger old(edges)@[i]] 0 <= i < it.seq().len() ==> *it.seq()[i] == old(edges)@[i],
+                forall|i: int| 0 <= i < it.index@ ==> marked(*daily_log, (#[trigger] old(edges)@[i]).room_id, old(edges)@[i].src_entity@, spec_day(old(edges)@[i].deletion_date)),
+//@ spec
+        ensures
+            // [received_edge_tombstones_mark_their_day] every reference tombstone applied from a peer marks the day it enters
+            r is Ok ==> forall|i: int| 0 <= i < old(edges)@.len() ==> marked(*final(daily_log), (#[trigger] old(edges)@[i]).room_id, old(edges)@[i].src_entity@, spec_day(old(edges)@[i].deletion_date)),
+            // [received_edge_tombstones_keep_marks]
+            marks_superset(*old(daily_log), *final(daily_log)),
+//@ end
+
 } // verus!
 fn main() {}
